@@ -30,3 +30,9 @@ package tsdb
 //@   setup_only teardown: after wg.Wait() the store's own goroutines are gone and, as the code says, callers must not use a store that is being closed
 //@ func (*Store).WithLogger
 //@   setup_only called while the server is assembled, before the store is opened and shared
+
+// Lock balance (C19): functions that return with a lock taken or released on purpose.
+//@ func (*SeriesFile).Retain
+//@   lock_handoff returns the read lock of f.refs held; the release function it returns is f.refs.RUnlock (callers defer it)
+//@ func (*SeriesIDSet).Merge
+//@   lock_handoff the read locks of the other sets are taken in the loop and released by deferred calls when the function returns; the function as a whole is balanced, an iteration is not
